@@ -7,6 +7,7 @@ CONSTANTS
   Bug_DestroyIgnoresLock = FALSE
   Bug_OpenTruncatesOnFailure = FALSE
   Bug_UnlinkLockAfterRelease = FALSE
+  Bug_DestroyWipesAfterRelease = FALSE
 SYMMETRY ProcSymmetry
 INVARIANTS TypeOK OneOwner IntruderFailsCleanly OnlyOwnerWrites AtMostOneWinner
 CHECK_DEADLOCK TRUE
